@@ -774,6 +774,11 @@ func a3Immutable(p *Prog, o *obls, c *PktClosure, key string) {
 // rtpHeaderMutators / readers: frozen from pion/rtp v1.10.5 (methods with pointer receiver on rtp.Header).
 var rtpHeaderMutators = map[string]bool{"SetExtension": true, "SetExtensionWithProfile": true, "DelExtension": true, "ClearExtensions": true, "Unmarshal": true}
 
+// aliasingGetters: non-repository methods whose result aliases the receiver's memory (pion/rtp v1.10.5).
+var aliasingGetters = map[string]bool{
+	"(*github.com/pion/rtp.Header).GetExtension": true,
+}
+
 // externalWriters lists non-repository functions that write through an argument: name → index of written argument
 // (receiver counts as argument 0 for methods).
 var externalWriters = map[string]int{
@@ -873,6 +878,11 @@ func writesThroughVals(p *Prog, fn *ssa.Function, roots []ssa.Value, visiting ma
 					if idx < len(args) && derived[args[idx]] {
 						out = append(out, fmt.Sprintf("%s writes into caller memory at %s", name, p.instrPos(x)))
 					}
+					return
+				}
+				// any MarshalTo(buf) of a non-repository type serialises into its argument
+				if sc := cc.StaticCallee(); sc != nil && !p.InUniverse(sc) && sc.Name() == "MarshalTo" && len(args) > 1 && derived[args[1]] {
+					out = append(out, fmt.Sprintf("%s writes into caller memory at %s", name, p.instrPos(x)))
 					return
 				}
 				// downstream / upstream chain calls are the contract of the chain
@@ -1267,6 +1277,11 @@ func aliasSets(p *Prog, fn *ssa.Function, roots []ssa.Value) (map[ssa.Value]bool
 					}
 				case *ssa.Field:
 					if derived[x.X] && (isRefType(x.Type()) || containsRefs(x.Type())) {
+						mark(x)
+					}
+				case *ssa.Call:
+					// getters of the packet types that hand out a slice of the packet's own memory
+					if aliasingGetters[calleeName(&x.Call)] && len(x.Call.Args) > 0 && derived[x.Call.Args[0]] {
 						mark(x)
 					}
 				case *ssa.Store:
